@@ -1,4 +1,5 @@
 """C06 - partial evaluation and tautology/contradiction flags are sound."""
+import collections
 import itertools
 
 from ..env import np, puan, pg
@@ -240,7 +241,16 @@ def check_model(m, acc, fam, k, only_interp=None):
                 if not is_var(der):
                     der.evaluate({cid: (ii // 2) % 2})
                 acc.n("transitions", 2)
-            res = obj.evaluate_propositions(interp)
+            # the kind of mapping is not part of the contract: plain dict, OrderedDict, and the dict subclasses whose lookup never
+            # raises for an absent key (defaultdict, Counter - a natural 'cart'), in rotation; absent ids stay unspecified
+            kind_ = (ii + k) % 4
+            given = interp if kind_ == 0 else (collections.OrderedDict(interp) if kind_ == 1 else
+                                               (collections.defaultdict(int, interp) if kind_ == 2 else collections.Counter(interp)))
+            n_keys = len(given)
+            res = obj.evaluate_propositions(given)
+            if len(given) != n_keys:
+                acc.violation(None, case, {"what": "evaluate_propositions added keys to the caller's mapping", "model": show(m), "interpretation": repr(given)})
+                continue
         except BaseException as e:
             acc.violation(None, case, {"what": "evaluate_propositions raised", "exc": repr(e), "model": show(m), "interpretation": repr(interp)})
             continue
